@@ -163,7 +163,13 @@ func checkBnbMiddleAgrees(c *core.Ctx) {
 	}
 	var trees []*eng.Expr
 	var where []string
-	for _, cd := range ir.Conds(fn) {
+	hosts, releaseHosts := hostsWithHelpers(fn)
+	defer releaseHosts()
+	var conds []ir.Cond
+	for _, h := range hosts {
+		conds = append(conds, ir.Conds(h)...)
+	}
+	for _, cd := range conds {
 		b, ok := cd.V.(*ssa.BinOp)
 		if !ok {
 			continue
